@@ -229,6 +229,9 @@ impl Selector {
 
     #[inline]
     pub fn del_fd(&self, io_data: &IoData) {
+        // (a system call on shared kernel state follows: the fd table / the epoll set)
+        #[cfg(may_verif)]
+        crate::verif::point();
         #[cfg(feature = "io_timeout")]
         if let Some(h) = io_data.timer.borrow_mut().take() {
             unsafe {
